@@ -258,10 +258,30 @@ class SpecLib:
 
     def call_class(self, ex, tag, pos, kw, st, node):
         r = self._plug("call_class", ex, tag, pos, kw, st, node)
+        if r is None and tag[0] == "class":
+            r = self.dataclass_ctor(ex, tag[1], pos, kw, st)
         if r is None:
             from .exec import Unsupported
             raise Unsupported(f"class call {tag}")
         yield from r
+
+    def dataclass_ctor(self, ex, qualname, pos, kw, st):
+        """frozen @dataclass value classes of the repo (ParsedField): the constructor builds a record."""
+        from . import front
+        mod, q = front.split_qualname(qualname)
+        mi = front.load_module(mod)
+        cd = mi.classes.get(q)
+        if cd is None:
+            return None
+        is_dc = any("dataclass" in ast.unparse(d) for d in cd.decorator_list)
+        if not is_dc or cd.bases:
+            return None
+        names = [n.target.id for n in cd.body if isinstance(n, ast.AnnAssign) and isinstance(n.target, ast.Name)]
+        vals = dict(zip(names, pos))
+        vals.update(kw)
+        if set(vals) != set(names):
+            return None
+        return [(st, SV("rec", vals, qualname))]
 
     # ---- builtins --------------------------------------------------------------------------
     def call_builtin(self, ex, name, pos, kw, st, node):
@@ -433,6 +453,10 @@ class SpecLib:
                     ex.oblige(st, f"read-nonneg@{ex.cur_line}", n >= 0, "safety")
                 res = z3.SubSeq(data, p, n)
                 st2 = st.clone()
+                # explicit length of the slice obtained (helps the sequence solvers)
+                ln = z3.Length(data)
+                st2.assume(z3.Implies(z3.And(p >= 0, n >= 0),
+                                      z3.Length(res) == z3.If(p >= ln, 0, z3.If(p + n <= ln, n, ln - p))))
                 st2.heap[(key, "pos")] = sv_int(p + z3.Length(res))
                 yield st2, sv_bytes(res)
                 return
